@@ -55,6 +55,12 @@ const (
 )
 
 func (a align) lpad(s string, w int) string {
+	if strings.TrimSpace(s) == "" {
+		// There is nothing to align in a blank value, and
+		// padding it would leave trailing spaces if the cell
+		// is the last one printed on its line.
+		return s
+	}
 	switch a {
 	default:
 		return s
